@@ -1,7 +1,7 @@
 /-
   Dynamic model, layer B ("full run"): layer A plus everything `co_run` / `co_shutdown` decide —
   when a run leaves its main loop (critical failure, all regular jobs done, expiry, cancellation from the
-  enclosing scheduler, failure of the orchestration code itself), what it cancels, how it shuts its jobs down, what it returns or raises, what
+  enclosing scheduler — for the top-level run: from outside, `extCancel` —, failure of the orchestration code itself), what it cancels, how it shuts its jobs down, what it returns or raises, what
   `failed_time_out()` / `failed_critical()` then say.
 
   The state embeds a layer-A state and every event is mapped to layer-A events (`projA`), so every
@@ -98,7 +98,8 @@ inductive EvB
   | grant (j : Nat)
   | bodyEnd (j : Nat) (ok : Bool)
   | cancelAck (j : Nat)
-  /-- the `CancelledError` requested by the enclosing scheduler is delivered into `co_run` of `s` -/
+  /-- the `CancelledError` requested by the enclosing scheduler — for the top-level scheduler `0`: from outside,
+      `extCancel` — is delivered into `co_run` of `s` -/
   | cancelArrive (s : Nat)
   /-- the main wait of `s` returns finished jobs -/
   | waitReturn (s : Nat)
@@ -128,6 +129,10 @@ inductive EvB
   /-- `_tidy_tasks` of `co_shutdown` returns: every cancelled handler has finished -/
   | sdTidyReturn (s : Nat) (pick : Nat)
   | tick (d : Nat)
+  /-- someone outside the tree calls `cancel()` on the task running `co_run()` of the top-level scheduler
+      (`task.cancel()`, an enclosing `asyncio.wait_for` expiring): layer-A step `extCancel`, nothing else changes;
+      the `CancelledError` is delivered by `cancelArrive 0` -/
+  | extCancel
   deriving Repr, Inhabited
 
 def liveChildren (c : Cfg) (st : StA) (s : Nat) : List Nat :=
@@ -232,7 +237,7 @@ def quietB (c : Cfg) (st : StB) : Bool :=
   (List.range c.n).all fun j =>
     -- a queued job that could take a slot, or whose cancellation is pending
     !(0 < j && st.a.ph j == .queued && (st.a.creq j || slotFree c st.a (c.parent j))) &&
-    -- a nested run whose cancellation has not been delivered
+    -- a run (nested, or the top-level one cancelled from outside: no `0 < j`) whose cancellation has not been delivered
     !(c.isSched j && st.a.ph j == .running && st.a.creq j && !st.carrived j) &&
     -- a main wait that could return, a reaction that is pending
     !(c.isSched j && st.pcB j == .loop && (!(doneSet c st.a j).isEmpty || (st.a.rx j).isSome)) &&
@@ -262,7 +267,9 @@ def stepB (c : Cfg) (st : StB) : EvB → Option StB
     | none => none
     | some a' => some { st with a := a' }
   | .cancelArrive s =>
-    if 0 < s ∧ s < c.n ∧ c.isSched s = true ∧ st.a.ph s = .running ∧ st.a.creq s = true ∧ st.carrived s = false then
+    -- (no `0 < s`: the wrapper `co_run()` is the same code for the top-level scheduler, whose task is cancelled from
+    --  outside — `extCancel` — instead of by an enclosing scheduler)
+    if s < c.n ∧ c.isSched s = true ∧ st.a.ph s = .running ∧ st.a.creq s = true ∧ st.carrived s = false then
       let st1 := { st with carrived := setAt st.carrived s true }
       match st.pcB s with
       | .loop =>
@@ -437,6 +444,10 @@ def stepB (c : Cfg) (st : StB) : EvB → Option StB
       | none => none
       | some a' => some { st with a := a' }
     else none
+  | .extCancel =>
+    match stepA c st.a .extCancel with
+    | none => none
+    | some a' => some { st with a := a' }
 
 def acceptB (c : Cfg) : StB → List EvB → Option StB
   | st, [] => some st
